@@ -186,6 +186,7 @@ def check_property(reg, repo, args, t0):
     funcs = []
     disagreements = []
     cross_counts = {}
+    bounded_hits = []
     for r in recs:
         funcs.append({"function": r["function"], "ast_hash": r.get("ast_hash"), "obligations": len(r["obligations"]),
                       "status": r["status"], "paths": r.get("paths", 0)})
@@ -197,6 +198,20 @@ def check_property(reg, repo, args, t0):
             crashes.append(r)
             continue
         if r["status"] == "undecided":
+            base_f0 = baseline.get("functions", {}).get(r["function"], {})
+            if base_f0 and base_f0.get("ast_hash") != r.get("ast_hash"):
+                # The function was changed into something the verifier cannot read.  No obligation can be generated, so
+                # nothing is proved or refuted here; the bounded stand-in is the scenario library of this property (concrete
+                # programs with asserted expectations that all pass on the committed tree): a scenario that fails now is a
+                # failing input on the real code.  Otherwise the function stays undecided.
+                try:
+                    from . import replay as _rp
+                    rr = _rp.try_replay(prop, r, {"name": r["function"] + "/<unsupported>/0"})
+                except Exception as e:
+                    rr = {"status": "replay-error", "detail": str(e)}
+                if rr and rr.get("status") == "reproduced":
+                    bounded_hits.append((r, rr))
+                    continue
             undecided.append((r["function"], r.get("error")))
         if r["status"] == "ok" and not r["obligations"] and not r.get("allow_empty"):
             undecided.append((r["function"], "zero obligations generated (vacuity guard)"))
@@ -207,7 +222,10 @@ def check_property(reg, repo, args, t0):
                     continue
             n_obl += 1
             solver_time += o.get("time", 0)
-            by_backend[o.get("backend", "?")] = by_backend.get(o.get("backend", "?"), 0) + 1
+            be = o.get("backend", "?")
+            if "(relevant " in be:
+                be = be.split("(relevant ")[0] + " (cone of influence of the goal only)"
+            by_backend[be] = by_backend.get(be, 0) + 1
             if len(samples) < 6 and o["kind"] not in ("frame",):
                 samples.append({"obligation": o["name"], "clause": o["clause"][:160], "path": o["path"][:200],
                                 "verdict": o["verdict"], "backend": o.get("backend"), "time_s": o.get("time")})
@@ -257,6 +275,12 @@ def check_property(reg, repo, args, t0):
         print("   path      : %s" % o["path"][:300])
         print("   verdict   : %s (%s)%s" % (o["verdict"], o.get("backend"), "" if has_model else " -- was discharged on the baseline tree; changed modules: %s" % ", ".join(changed)))
         viol_out.append({"obligation": o["name"], "replay": rp, "reproduced": bool(replayed and replayed.get("status") == "reproduced")})
+    for (r, rr) in bounded_hits:
+        print("VIOLATION property=%s replay=%s" % (prop, rr["path"]))
+        print("   function  : %s was changed and left the verifier's subset (%s)" % (r["function"], r.get("error")))
+        print("   decided by: BOUNDED stand-in -- scenario %s fails on the current tree (it passes on the committed one)" % rr["path"])
+        viol_out.append({"obligation": r["function"] + " (outside the subset; bounded scenario)", "replay": rr["path"], "reproduced": True,
+                         "bounded": True})
     if crashes:
         for r in crashes:
             print("CHECKER-CRASH in %s: %s" % (r["function"], r.get("error")))
@@ -293,16 +317,16 @@ def check_property(reg, repo, args, t0):
         },
         "assumptions": sorted(assumptions) + extra.static_assumptions(prop),
         "wall_s": round(wall, 2),
-        "violations": len(violations),
+        "violations": len(violations) + len(bounded_hits),
     }
     os.makedirs(os.path.join(VERIF, "evidence"), exist_ok=True)
     with open(os.path.join(VERIF, "evidence", prop + ".json"), "w") as fh:
         json.dump(evidence, fh, indent=1)
     print("%s: %d obligations, %d discharged, %d known findings, %d violations, %d undecided  (%.1fs, tier %s)" % (
-        prop, n_obl, n_dis, n_known, len(violations), len(undecided), wall, tier))
+        prop, n_obl, n_dis, n_known, len(violations) + len(bounded_hits), len(undecided), wall, tier))
     if crashes or disagreements:
         return 3
-    if violations:
+    if violations or bounded_hits:
         return 1
     if undecided:
         return 2
